@@ -161,7 +161,62 @@ def chain_constraints(fd, chains, B):
     return cons
 
 
-def brute_front(job, symbols, chains, B, dom, objf, usef):
+OPS = {"<=": lambda a, b: a <= b, "<": lambda a, b: a < b, ">=": lambda a, b: a >= b, ">": lambda a, b: a > b, "==": lambda a, b: a == b}
+
+
+def loop_bound_targets(job):
+    """[(loop index, op, value)] read from the job BEFORE make_tile_shapes touches it."""
+    out = []
+    if job.constraints.tile_shape_constraints or job.constraints.min_usage_constraints:
+        raise Unsupported("tile-shape / min-usage constraints")
+    for c in job.constraints.loop_bounds_constraints:
+        op, val = c.constraint.operator, c.constraint.value
+        if op not in OPS:
+            raise Unsupported(f"loop-bound operator {op}")
+        for i in c._target_loop_indices:
+            out.append((int(i), op, val))
+    return out
+
+
+def loop_bound_specs(job, targets):
+    """[(outer, inner, op, value)] (after the run, when the loops carry their tile-shape symbols).
+    The number of iterations of a constrained loop is (tile shape of the NEAREST enclosing loop
+    over the same rank variable, or the rank bound) / (own tile shape); outer/inner are symbol
+    names or ints.  'Constrained to one' constraints (== 1, <= 1) are included like any other."""
+    from accelforge.frontend.mapping import Loop
+    loops = [n for n in job.mapping.nodes if isinstance(n, Loop)]
+    B = {rv: int(b) for rv, b in job.rank_variable_bounds.items()}
+    nm = lambda x: x.name if isinstance(x, sympy.Symbol) else int(x)
+    out = []
+    for i, op, val in targets:
+        n = loops[i]
+        prev = B[n.rank_variable]
+        for l in loops[:i]:
+            if l.rank_variable == n.rank_variable:
+                prev = l.tile_shape
+        out.append((nm(prev), nm(n.tile_shape), op, val))
+    return out
+
+
+def loop_bound_constraints(fd, specs):
+    cons = []
+    for outer, inner, op, val in specs:
+        o = fd.var[outer] if isinstance(outer, str) else z3.IntVal(outer)
+        i = fd.var[inner] if isinstance(inner, str) else z3.IntVal(inner)
+        cons.append(OPS[op](z3.ToReal(o), z3.RealVal(Fraction(val)) * z3.ToReal(i)))     # outer / inner  op  value
+    return cons
+
+
+def loop_bounds_ok(env, specs):
+    for outer, inner, op, val in specs:
+        o = env[outer] if isinstance(outer, str) else outer
+        i = env[inner] if isinstance(inner, str) else inner
+        if not OPS[op](Fraction(o, i), Fraction(val)):
+            return False
+    return True
+
+
+def brute_front(job, symbols, chains, B, dom, objf, usef, lb_specs=()):
     names = [s.name for s in symbols]
     pts = []
     for vals in itertools.product(*[dom[n] for n in names]):
@@ -174,7 +229,7 @@ def brute_front(job, symbols, chains, B, dom, objf, usef):
                 if prev % v:
                     ok = False
                 prev = v
-        if not ok:
+        if not ok or not loop_bounds_ok(env, lb_specs):
             continue
         sub = {sympy.Symbol(k, positive=True, integer=True): v for k, v in env.items()}
         if all(float(f.subs(sub)) <= 1 + 1e-9 for f in usef.values()):
@@ -199,6 +254,11 @@ def shard(payload):
         label = f"{cfg.get('arch')} M={cfg.get('M')} KN={cfg.get('KN')} {'+'.join(cfg.get('metrics'))} glb={cfg.get('glb_size')} template {ji}"
         t0 = time.time()
         try:
+            lb_targets = loop_bound_targets(job)
+        except Unsupported as e:
+            st.extra.setdefault("templates_outside_encoding", []).append(f"{label}: {e}")
+            continue
+        try:
             cap = capture(job)
         except Exception as e:  # noqa
             st.extra["templates_without_valid_tile_shapes"] = st.extra.get("templates_without_valid_tile_shapes", 0) + 1
@@ -220,10 +280,13 @@ def shard(payload):
                     raise Unsupported(f"no formula for column {c}")
             usef = {k: canon(v) for k, v in {**cap["rm"][2], **cap["rm"][3]}.items()}
             chains, B, dom = template_space(job, symbols)
+            lb_specs = loop_bound_specs(job, lb_targets)
             fd = FD(dom)
             obj_t = {c: fd.tr(f) for c, f in objf.items()}
             use_t = {k: fd.tr(f) for k, f in usef.items()}
-            space = chain_constraints(fd, chains, B)
+            space = chain_constraints(fd, chains, B) + loop_bound_constraints(fd, lb_specs)
+            if lb_specs:
+                st.extra["templates_with_loop_bound_constraints"] = st.extra.get("templates_with_loop_bound_constraints", 0) + 1
         except Unsupported as e:
             st.extra.setdefault("templates_outside_encoding", []).append(f"{label}: {e}")
             continue
@@ -238,7 +301,7 @@ def shard(payload):
             okdom = all(env[n] in dom[n] for n in names)
             vals = tuple(float(f.subs(sub)) for f in objf.values())
             match = all(abs(a - b) <= TOL * max(1.0, abs(b)) for a, b in zip(tuple(float(r[c]) for c in cols), vals))
-            valid = all(float(f.subs(sub)) <= 1 + 1e-6 for f in usef.values())
+            valid = all(float(f.subs(sub)) <= 1 + 1e-6 for f in usef.values()) and loop_bounds_ok(env, lb_specs)
             st.extra["rows_checked"] = st.extra.get("rows_checked", 0) + 1
             if not (okdom and match and valid):
                 viol.append(dict(property=PID, cfg=cfg, template=ji, kind="row", assignment=env, row=[float(r[c]) for c in cols], formulas=list(vals),
@@ -278,7 +341,7 @@ def shard(payload):
             sub = {sympy.Symbol(k, positive=True, integer=True): v for k, v in env.items()}
             vals = tuple(float(f.subs(sub)) for f in objf.values())
             st.replays += 1
-            allpts = brute_front(job, symbols, chains, B, dom, objf, usef)
+            allpts = brute_front(job, symbols, chains, B, dom, objf, usef, lb_specs)
             in_space = any(e == env for _, e in allpts)
             if not in_space or weakly_dominated(vals, rows):
                 raise HarnessError(f"C08 model does not reproduce: {label} {env} {vals}")
@@ -304,7 +367,10 @@ def run(args):
             dict(arch="simple", M=24, KN=12, metrics=("ENERGY", "LATENCY"), glb_size=2048),
             dict(arch="a3", M=24, KN=12, metrics=("ENERGY", "LATENCY"), glb_size=65536),
             dict(arch="a3", M=12, KN=8, metrics=("LATENCY",), glb_size=4096),
-            dict(arch="a3", M=64, KN=48, metrics=("ENERGY", "LATENCY"), glb_size=65536)]
+            dict(arch="a3", M=64, KN=48, metrics=("ENERGY", "LATENCY"), glb_size=65536),
+            # 4-wide PE array (spatial loops) whose dimension carries the loop-bound constraint `~m <= 2`
+            dict(arch="pe", M=4, KN=8, metrics=("ENERGY", "LATENCY"), glb_size=512),
+            dict(arch="pe", M=8, KN=4, metrics=("ENERGY", "LATENCY"), glb_size=2048)]
     if args.tier == "thorough":
         cfgs += [dict(arch="a3", M=36, KN=8, metrics=("ENERGY", "LATENCY"), glb_size=16384),
                  dict(arch="simple", M=30, KN=12, metrics=("ENERGY",), glb_size=1024),
